@@ -302,6 +302,11 @@ func (runInfo *runInfoStruct) invokeAddrExpr(expr *ast.AddrExpr) {
 		operand = paren.SubExpr
 	}
 	_, isVariable := operand.(*ast.IdentExpr)
+	switch operand.(type) {
+	case *ast.TernaryOpExpr, *ast.NilCoalescingOpExpr:
+		// neither does choosing between values: what such an expression yields is a value, not a place
+		isVariable = true
+	}
 	if !isVariable && runInfo.rv.CanAddr() && !(runInfo.rv.Kind() == reflect.Interface && runInfo.rv.IsNil()) {
 		runInfo.rv = runInfo.rv.Addr()
 	} else {
